@@ -18,7 +18,7 @@ Proof.
   apply N.log2_lt_pow2; [lia|exact HK].
 Qed.
 
-Time Lemma byte_bits b0 b1 b2 b3 b4 b5 b6 b7 n :
+Lemma byte_bits b0 b1 b2 b3 b4 b5 b6 b7 n :
   N.testbit (b2n b0 1 + b2n b1 2 + b2n b2 4 + b2n b3 8 + b2n b4 16 + b2n b5 32 + b2n b6 64 + b2n b7 128) n
   = bit_of [b0; b1; b2; b3; b4; b5; b6; b7] n.
 Proof.
@@ -36,7 +36,7 @@ Definition evinfo_answer (s : ostate) : bool * bool * bool * bool :=
 
 Definition bcast_pending (s : ostate) : bool := match s_last_bcast s with Some _ => true | None => false end.
 
-Time Lemma response_iin_exact s s' iin1 iin2 o :
+Lemma response_iin_exact s s' iin1 iin2 o :
   response_iin s = (s', (iin1, iin2), o) ->
   let '(c1, c2, c3, ovf) := evinfo_answer s in
   let a := s_app_iin s in
@@ -52,8 +52,8 @@ Qed.
 
 (* ---------- the tracked fields ---------------------------------------------------------------- *)
 
-Definition trk (s : ostate) : bool * option bcast_mode * option (bool * N) :=
-  (s_restart_iin s, s_last_bcast s, s_bcast_rep s).
+Definition trk (s : ostate) : bool * option bcast_mode * option (bool * N) * N :=
+  (s_restart_iin s, s_last_bcast s, s_bcast_rep s, s_app_iin s).
 
 Definition keep (s s' : ostate) : Prop := trk s' = trk s.
 
@@ -64,9 +64,10 @@ Proof. unfold keep. congruence. Qed.
 Lemma keep_fields s s' : keep s s' ->
   s_restart_iin s' = s_restart_iin s /\ s_last_bcast s' = s_last_bcast s /\ s_bcast_rep s' = s_bcast_rep s.
 Proof. unfold keep, trk. intros H. inversion H. auto. Qed.
-Lemma keep_intro s s' :
-  s_restart_iin s' = s_restart_iin s -> s_last_bcast s' = s_last_bcast s -> s_bcast_rep s' = s_bcast_rep s -> keep s s'.
-Proof. unfold keep, trk. congruence. Qed.
+Lemma keep_app s s' : keep s s' -> s_app_iin s' = s_app_iin s.
+Proof. unfold keep, trk. intros H. inversion H. auto. Qed.
+Lemma sc_app s s' : same_core s s' -> s_app_iin s' = s_app_iin s.
+Proof. unfold same_core. tauto. Qed.
 
 Lemma ask_evinfo_keep s s1 r o : ask_evinfo s = (s1, r, o) -> keep s s1.
 Proof. unfold ask_evinfo. destruct (s_answers s) as [|[] rest]; intros H; inversion H; subst; reflexivity. Qed.
@@ -183,7 +184,7 @@ Qed.
 Lemma restart_response_keep seq s d s1 r : restart_response seq s d = (s1, r) -> keep s s1.
 Proof. unfold restart_response. destruct d as [[ms v]|]; intros H; inversion H; subst; reflexivity. Qed.
 
-Time Lemma hnr_body_trk cfg s fn seq fid bytes hdrs s1 r o :
+Lemma hnr_body_trk cfg s fn seq fid bytes hdrs s1 r o :
   hnr_body cfg s fn seq fid bytes hdrs = (s1, r, o) ->
   s_last_bcast s1 = s_last_bcast s /\ s_bcast_rep s1 = s_bcast_rep s /\
   s_restart_iin s1 = (if (fn =? fn_write) && clears_restart hdrs then false else s_restart_iin s).
@@ -229,33 +230,41 @@ Qed.
 
 (* ---------- the relation of a step ---------------------------------------------------------------- *)
 
-(* restart bit: unchanged, or cleared and then Wr holds; a pending confirm-mandatory broadcast
-   indication stays, or Wb holds *)
+(* restart bit: unchanged, or cleared and then Wr holds; the broadcast indication: unchanged, or one
+   that needs no confirmation was consumed (by a report), or Wb holds; the application's bits: unchanged *)
 Definition sr (Wr Wb : Prop) (s s' : ostate) : Prop :=
   (s_restart_iin s' = s_restart_iin s \/ (s_restart_iin s' = false /\ Wr)) /\
-  (s_last_bcast s = Some BMandatory -> s_last_bcast s' = Some BMandatory \/ Wb).
+  (s_last_bcast s' = s_last_bcast s \/ (s_last_bcast s' = None /\ s_last_bcast s <> Some BMandatory) \/ Wb) /\
+  s_app_iin s' = s_app_iin s.
 
 Definition qs : ostate -> ostate -> Prop := sr False False.
 
 Lemma sr_refl Wr Wb s : sr Wr Wb s s.
-Proof. split; auto. Qed.
+Proof. split; [|split]; auto. Qed.
 
 Lemma sr_trans Wr Wb s1 s2 s3 : sr Wr Wb s1 s2 -> sr Wr Wb s2 s3 -> sr Wr Wb s1 s3.
 Proof.
-  intros [A1 B1] [A2 B2]. split.
+  intros (A1 & B1 & C1) (A2 & B2 & C2). split; [|split].
   - destruct A2 as [A2|[A2 W]]; [|right; auto]. rewrite A2. exact A1.
-  - intros H. destruct (B1 H) as [H1|W]; [|right; exact W]. exact (B2 H1).
+  - destruct B1 as [B1|[[B1 N1]|W]]; [| |right; right; exact W].
+    + rewrite <- B1. exact B2.
+    + destruct B2 as [B2|[[B2 N2]|W]]; [| |right; right; exact W]; right; left; split; congruence.
+  - congruence.
 Qed.
 
 Lemma sr_weaken (Wr Wb Wr' Wb' : Prop) s s' : (Wr -> Wr') -> (Wb -> Wb') -> sr Wr Wb s s' -> sr Wr' Wb' s s'.
 Proof.
-  intros Hr Hb [A B]. split.
+  intros Hr Hb (A & B & C). split; [|split].
   - destruct A as [A|[A W]]; auto.
-  - intros H. destruct (B H) as [H1|W]; auto.
+  - destruct B as [B|[B|W]]; auto.
+  - exact C.
 Qed.
 
 Lemma keep_sr Wr Wb s s' : keep s s' -> sr Wr Wb s s'.
-Proof. intros H. apply keep_fields in H. destruct H as (A & B & C). split; [left; exact A|]. intros H. left. congruence. Qed.
+Proof.
+  intros H. pose proof (keep_app _ _ H) as D. apply keep_fields in H. destruct H as (A & B & C).
+  split; [left; exact A|]. split; [|exact D]. left. exact B.
+Qed.
 
 Lemma qs_sr Wr Wb s s' : qs s s' -> sr Wr Wb s s'.
 Proof. apply sr_weaken; intros []. Qed.
@@ -317,14 +326,18 @@ Qed.
 
 Lemma write_solicited_qs s dest r s1 r1 o : write_solicited s dest r = (s1, r1, o) -> qs s s1.
 Proof.
-  intros H. apply write_solicited_trk in H. destruct H as [A B]. split; [left; exact A|].
-  intros Hm. rewrite Hm in B. left. tauto.
+  intros H. pose proof (write_solicited_spec _ _ _ _ _ _ H) as [D _]. apply sc_app in D.
+  apply write_solicited_trk in H. destruct H as [A B]. split; [left; exact A|]. split; [|exact D].
+  destruct (s_last_bcast s) as [[]|]; [right; left; split; [tauto|discriminate]|left; tauto|
+                                       right; left; split; [tauto|discriminate]|left; tauto].
 Qed.
 
 Lemma write_unsolicited_qs cfg s r s1 r1 o : write_unsolicited cfg s r = (s1, r1, o) -> qs s s1.
 Proof.
-  intros H. apply write_unsolicited_trk in H. destruct H as [A B]. split; [left; exact A|].
-  intros Hm. rewrite Hm in B. left. tauto.
+  intros H. pose proof (write_unsolicited_spec _ _ _ _ _ _ H) as [D _]. apply sc_app in D.
+  apply write_unsolicited_trk in H. destruct H as [A B]. split; [left; exact A|]. split; [|exact D].
+  destruct (s_last_bcast s) as [[]|]; [right; left; split; [tauto|discriminate]|left; tauto|
+                                       right; left; split; [tauto|discriminate]|left; tauto].
 Qed.
 
 Lemma write_error_response_qs s from bc seq s1 o : write_error_response s from bc seq = (s1, o) -> qs s s1.
@@ -341,7 +354,7 @@ Qed.
 Definition clearing_write (cfg : ocfg) (from : N) (d : digest) : Prop :=
   exists ctl hdrs rh, to_treq cfg from d = TqRequest ctl fn_write (ObjOk hdrs rh) /\ clears_restart hdrs = true.
 
-Time Lemma process_broadcast_trk cfg s m fid ctl fn bytes obj s1 o :
+Lemma process_broadcast_trk cfg s m fid ctl fn bytes obj s1 o :
   process_broadcast cfg s m fid ctl fn bytes obj = (s1, o) ->
   s_last_bcast s1 = Some m /\ s_bcast_rep s1 = None /\
   (s_restart_iin s1 = s_restart_iin s \/
@@ -411,7 +424,7 @@ Proof.
       destruct (fn =? fn_read); split; discriminate.
 Qed.
 
-Time Lemma handle_from_idle_sr cfg s from bc bytes d fid s' o :
+Lemma handle_from_idle_sr cfg s from bc bytes d fid s' o :
   handle_from_idle cfg s from bc bytes d fid = (s', o) -> sr (clearing_write cfg from d) (bc <> None) s s'.
 Proof.
   rewrite SessionLemmas_c12.handle_from_idle_eq. destruct (to_treq cfg from d) as [|eseq|ctl fn obj] eqn:Et.
@@ -420,8 +433,9 @@ Proof.
   - cbv zeta. destruct bc as [m|].
     + rewrite classify_bcast.
       destruct (process_broadcast cfg s m fid ctl fn bytes obj) as [s1 o1] eqn:E.
+      pose proof (SessionLemmas_c12.process_broadcast_spec _ _ _ _ _ _ _ _ _ _ E) as [D _]. apply sc_app in D.
       apply process_broadcast_trk in E. destruct E as (A & B & C). intros H; inversion H; subst s' o.
-      split; [|intros _; right; discriminate].
+      split; [|split; [right; right; discriminate|exact D]].
       destruct C as [C|(C1 & C2 & hdrs & rh & C3 & C4)]; [left; exact C|right]. split; [exact C1|].
       subst fn obj. exists ctl, hdrs, rh. auto.
     + pose proof (classify_unicast_cases s bytes ctl fn obj) as Hc.
@@ -435,8 +449,9 @@ Proof.
         apply qs_sr. eapply sr_keep_l; eauto.
       * destruct Hc as (_ & _ & rh & Hobj).
         destruct (handle_non_read cfg s fn (ctl_seq ctl) fid bytes hdrs) as [[s1 r] o1] eqn:E.
+        pose proof (SessionLemmas_c12.handle_non_read_spec _ _ _ _ _ _ _ _ _ _ E) as [D _]. apply sc_app in D.
         apply handle_non_read_trk in E. destruct E as (A & B & C). intros H. apply hfi_finish_qs in H.
-        eapply sr_trans; [|apply qs_sr; exact H]. split; [|intros Hm; left; congruence].
+        eapply sr_trans; [|apply qs_sr; exact H]. split; [|split; [left; exact A|exact D]].
         destruct (fn =? fn_write) eqn:Ew; cbn [andb] in C; [|left; exact C].
         destruct (clears_restart hdrs) eqn:Ecl; [|left; exact C]. right. split; [exact C|].
         apply N.eqb_eq in Ew. subst fn obj. exists ctl, hdrs, rh. auto.
@@ -458,7 +473,7 @@ Lemma bcast_confirmed_trk s u q :
   (s_last_bcast (bcast_confirmed s u q) = s_last_bcast s \/ rep_eqb (s_bcast_rep s) u q = true).
 Proof. unfold bcast_confirmed. destruct (rep_eqb (s_bcast_rep s) u q); prj; auto. Qed.
 
-Time Lemma unsol_wait_fragment_sr cfg s resp from bc bytes d fid s' res o :
+Lemma unsol_wait_fragment_sr cfg s resp from bc bytes d fid s' res o :
   unsol_wait_fragment cfg s resp from bc bytes d fid = (s', res, o) ->
   sr (clearing_write cfg from d) (bc <> None \/ reporter_confirm cfg s from bc d) s s'.
 Proof.
@@ -470,8 +485,9 @@ Proof.
   - cbv zeta. destruct bc as [m|].
     + rewrite classify_bcast.
       destruct (process_broadcast cfg (upd_deferred s None) m fid ctl fn bytes obj) as [s1 o1] eqn:E.
+      pose proof (SessionLemmas_c12.process_broadcast_spec _ _ _ _ _ _ _ _ _ _ E) as [D _]. apply sc_app in D.
       apply process_broadcast_trk in E. destruct E as (A & B & C). prj. intros H; inversion H; subst s' res o.
-      split; [|intros _; right; left; discriminate].
+      split; [|split; [right; right; left; discriminate|exact D]].
       destruct C as [C|(C1 & C2 & hdrs & rh & C3 & C4)]; [left; exact C|right]. split; [exact C1|].
       subst fn obj. exists ctl, hdrs, rh. auto.
     + pose proof (classify_unicast_cases s bytes ctl fn obj) as Hc.
@@ -484,9 +500,10 @@ Proof.
       * intros H; inversion H; subst. apply keep_sr. reflexivity.
       * destruct Hc as (_ & _ & rh & Hobj).
         destruct (handle_non_read cfg (upd_deferred s None) fn (ctl_seq ctl) fid bytes hdrs) as [[s1 r] o1] eqn:E.
+        pose proof (SessionLemmas_c12.handle_non_read_spec _ _ _ _ _ _ _ _ _ _ E) as [D _]. apply sc_app in D.
         apply handle_non_read_trk in E. prj. destruct E as (A & B & C).
         assert (S1 : sr (clearing_write cfg from d) (@None bcast_mode <> None \/ reporter_confirm cfg s from None d) s s1).
-        { split; [|intros Hm; left; congruence].
+        { split; [|split; [left; exact A|exact D]].
           destruct (fn =? fn_write) eqn:Ew; cbn [andb] in C; [|left; exact C].
           destruct (clears_restart hdrs) eqn:Ecl; [|left; exact C]. right. split; [exact C|].
           apply N.eqb_eq in Ew. subst fn obj. exists ctl, hdrs, rh. auto. }
@@ -499,13 +516,15 @@ Proof.
       * destruct Hc.
       * destruct (Hq q) as [Hq1 _]. destruct (Hq1 eq_refl) as (_ & Hfn & Hu & Hs).
         intros H; inversion H; subst s' res o. destruct (bcast_confirmed_trk s false q) as [A B].
-        split; [left; exact A|]. intros Hm. destruct B as [B|B]; [left; congruence|].
-        right. right. exists ctl, obj. subst fn. rewrite Hu, <- Hs. auto.
+        split; [left; exact A|]. split; [|apply sc_app, sc_bcast_confirmed].
+        destruct B as [B|B]; [left; exact B|].
+        right. right. right. exists ctl, obj. subst fn. rewrite Hu, <- Hs. auto.
       * destruct (Hq q) as [_ Hq2]. destruct (Hq2 eq_refl) as (_ & Hfn & Hu & Hs).
         destruct (q =? ctl_seq (r_ctl resp)); intros H; inversion H; subst s' res o; [|apply sr_refl].
         destruct (bcast_confirmed_trk s true q) as [A B].
-        split; [left; exact A|]. intros Hm. destruct B as [B|B]; [left; congruence|].
-        right. right. exists ctl, obj. subst fn. rewrite Hu, <- Hs. auto.
+        split; [left; exact A|]. split; [|apply sc_app, sc_bcast_confirmed].
+        destruct B as [B|B]; [left; exact B|].
+        right. right. right. exists ctl, obj. subst fn. rewrite Hu, <- Hs. auto.
 Qed.
 
 (* ---------- unsolicited, deferred read ------------------------------------------------------------ *)
@@ -578,7 +597,7 @@ Lemma pend_nc_pend cfg s0 s1 :
   s_pending s1 = s_pending s0 \/ s_pending s1 = None -> pend_nc cfg s0 -> pend_nc cfg s1.
 Proof. unfold pend_nc. intros [H|H]; rewrite H; auto. Qed.
 
-Time Lemma idle_run_sr cfg : forall f st s s' o,
+Lemma idle_run_sr cfg : forall f st s s' o,
   idle_run f cfg st s = (s', o) -> pend_nc cfg s -> isr cfg s s s'.
 Proof.
   induction f as [|f IH]; intros st s s' o H Hnc.
@@ -655,21 +674,45 @@ Proof.
   unfold isr, pend_W in H. rewrite Hp in H. exact H.
 Qed.
 
+Lemma resume_at_qs cfg st s s' o : s_pending s = None -> resume_at cfg st s = (s', o) -> qs s s'.
+Proof. unfold resume_at. apply idle_run_qs. Qed.
+
+Lemma idle_loop_qs cfg s s' o : s_pending s = None -> idle_loop 8 cfg s = (s', o) -> qs s s'.
+Proof. rewrite idle_loop8. apply idle_run_qs. Qed.
+
+Lemma resume_at_sr cfg st s s' o : resume_at cfg st s = (s', o) -> pend_nc cfg s -> isr cfg s s s'.
+Proof. unfold resume_at. apply idle_run_sr. Qed.
+
+Lemma idle_loop_sr cfg s s' o : idle_loop 8 cfg s = (s', o) -> pend_nc cfg s -> isr cfg s s s'.
+Proof. rewrite idle_loop8. apply idle_run_sr. Qed.
+
+Lemma idle_run_St1_S f cfg s :
+  idle_run (S f) cfg St1 s =
+  let '(s1, o1) := match s_pending s with
+                   | Some (from, bc, bytes, d, fid) => handle_from_idle cfg (upd_pending s None) from bc bytes d fid
+                   | None => (s, [])
+                   end in
+  match s_control s1 with
+  | CIdle => let '(s2, o2) := idle_run f cfg St2 s1 in (s2, o1 ++ o2)
+  | _ => (s1, o1)
+  end.
+Proof. reflexivity. Qed.
+
 (* ---------- time -------------------------------------------------------------------------------------- *)
 
 Lemma fire_deadline_qs cfg s s' o : J s -> fire_deadline cfg s = (s', o) -> qs s s'.
 Proof.
   intros [Jp _] H. unfold fire_deadline in H. destruct (s_control s) as [|se dl r|resp is_null retries dl].
-  - eapply idle_run_qs; eauto.
+  - eapply resume_at_qs; eauto.
   - destruct (resume_at cfg (stage_of r) (upd_control s CIdle)) as [s1 o1] eqn:Er.
-    inversion H; subst s' o. eapply sr_keep_l; [|eapply idle_run_qs; [|exact Er]]; [reflexivity|exact Jp].
+    inversion H; subst s' o. eapply sr_keep_l; [|eapply resume_at_qs; [|exact Er]]; [reflexivity|exact Jp].
   - match type of H with (if ?c then _ else _) = _ => destruct c end.
     + inversion H; subst. apply keep_sr. reflexivity.
     + destruct (end_unsol cfg s is_null UrTimeout) as [[s1 ns] o1] eqn:Ee.
       pose proof (end_unsol_spec _ _ _ _ _ _ _ Ee) as [A _]. pget FPend A.
       apply end_unsol_keep in Ee.
       destruct (resume_at cfg (St3 ns) s1) as [s2 o2] eqn:Er.
-      inversion H; subst s' o. eapply sr_keep_l; [exact Ee|]. eapply idle_run_qs; [|exact Er]. congruence.
+      inversion H; subst s' o. eapply sr_keep_l; [exact Ee|]. eapply resume_at_qs; [|exact Er]. congruence.
 Qed.
 
 Lemma advance_qs cfg target : forall f s s' o, J s -> advance f cfg s target = (s', o) -> qs s s'.
@@ -688,7 +731,7 @@ Qed.
 
 (* ---------- a received fragment ---------------------------------------------------------------------- *)
 
-Time Lemma sol_wait_fragment_cases cfg s se dl from bc bytes d out o :
+Lemma sol_wait_fragment_cases cfg s se dl from bc bytes d out o :
   sol_wait_fragment cfg s se dl from bc bytes d = (out, o) ->
   match out with
   | SoStay _ => True
@@ -741,7 +784,21 @@ Proof.
   change (fn_confirm =? fn_confirm) with true. cbv iota. destruct (ctl_uns ctl); eauto.
 Qed.
 
-Time Lemma on_rx_sr cfg s from bc bytes d s' o :
+Lemma idle_run_confirm_pending cfg f s from bytes d fid ctl obj s' o :
+  to_treq cfg from d = TqRequest ctl fn_confirm obj -> s_pending s = Some (from, None, bytes, d, fid) ->
+  idle_run (S f) cfg St1 s = (s', o) -> qs s s'.
+Proof.
+  intros Ht Hp. rewrite idle_run_St1_S, Hp.
+  destruct (handle_from_idle_confirm cfg (upd_pending s None) from bytes d fid ctl obj Ht) as [o1 E1].
+  rewrite E1. change (s_control (upd_pending s None)) with (s_control s).
+  destruct (s_control s).
+  - destruct (idle_run f cfg St2 (upd_pending s None)) as [s2 o2] eqn:Er. intros H; inversion H; subst s' o.
+    apply idle_run_qs in Er; [|reflexivity]. eapply sr_keep_l; [|exact Er]. reflexivity.
+  - intros H; inversion H; subst. apply keep_sr. reflexivity.
+  - intros H; inversion H; subst. apply keep_sr. reflexivity.
+Qed.
+
+Lemma on_rx_sr cfg s from bc bytes d s' o :
   J s -> on_rx cfg s from bc bytes d = (s', o) ->
   sr (clearing_write cfg from d) (bcast_cause cfg s from bc d) s s'.
 Proof.
@@ -754,18 +811,18 @@ Proof.
   change (s_control s0) with (s_control s) in H.
   destruct (s_control s) as [|se dl r|resp is_null retries dl] eqn:Ec.
   - (* idle *)
-    change (idle_loop 8 cfg) with (idle_run 32 cfg St1) in H.
     set (sp := upd_pending s0 (Some (from, bc, bytes, d, fid))) in *.
+    assert (Ksp : keep s sp) by reflexivity.
+    assert (Psp : s_pending sp = Some (from, bc, bytes, d, fid)) by reflexivity.
+    clearbody sp.
     destruct (not_confirm_dec cfg from bc d) as [Hnc|(ctl & obj & Hb & Ht)].
-    + apply idle_run_sr in H; [|exact Hnc]. unfold isr, pend_W, Wr_of, Wb_of in H. subst sp. prj.
-      eapply sr_keep_l; [exact K0|]. eapply sr_keep_l; [|eapply sr_weaken; [| |exact H]]; [reflexivity|auto|].
+    + apply idle_loop_sr in H; [|unfold pend_nc; rewrite Psp; exact Hnc].
+      unfold isr, pend_W, Wr_of, Wb_of in H. rewrite Psp in H.
+      eapply sr_keep_l; [exact Ksp|]. eapply sr_weaken; [| |exact H]; [auto|].
       intros Hx. left. exact Hx.
-    + subst bc. change 32%nat with (S 31) in H. cbn [idle_run] in H.
-      change (s_pending sp) with (Some (from, @None bcast_mode, bytes, d, fid)) in H. cbv iota beta in H.
-      destruct (handle_from_idle_confirm cfg (upd_pending sp None) from bytes d fid ctl obj Ht) as [o1 E1].
-      rewrite E1 in H. change (s_control (upd_pending sp None)) with (s_control s) in H. rewrite Ec in H.
-      destruct (idle_run 31 cfg St2 (upd_pending sp None)) as [s2 o2] eqn:Er. inversion H; subst s' o.
-      apply idle_run_qs in Er; [|reflexivity]. apply qs_sr. eapply sr_keep_l; [|exact Er]. reflexivity.
+    + subst bc. rewrite idle_loop8 in H. change 32%nat with (S 31) in H.
+      apply (idle_run_confirm_pending cfg 31 sp from bytes d fid ctl obj) in H; [|exact Ht|exact Psp].
+      apply qs_sr. eapply sr_keep_l; [exact Ksp|exact H].
   - (* solicited confirm wait *)
     destruct (sol_wait_fragment cfg s0 se dl from bc bytes d) as [outc o0] eqn:Es.
     apply sol_wait_fragment_cases in Es.
@@ -776,13 +833,13 @@ Proof.
       { right. exists ctl, obj. split; [exact Hb|]. split; [exact Ht|]. right. exists se, dl, r. auto. }
       set (s1 := upd_last_bcast s0 None) in *.
       assert (S1 : sr (clearing_write cfg from d) (bcast_cause cfg s from bc d) s s1).
-      { split; [left; reflexivity|]. intros _. right. exact Wb. }
+      { split; [left; reflexivity|]. split; [|reflexivity]. right. right. exact Wb. }
       assert (P1 : s_pending s1 = None) by exact Jp.
       clearbody s1.
       destruct (se_fin se).
       * destruct (resume_at cfg (stage_of r) (upd_control s1 CIdle)) as [s2 o2] eqn:Er.
         inversion H; subst s' o. eapply sr_trans; [exact S1|]. apply qs_sr.
-        eapply sr_keep_l; [|eapply idle_run_qs; [|exact Er]]; [reflexivity|exact P1].
+        eapply sr_keep_l; [|eapply resume_at_qs; [|exact Er]]; [reflexivity|exact P1].
       * destruct (format_read_response s1 false (seq16_next (se_ecsn se)) 0) as [[[s2 rsp] next] o2] eqn:Ef.
         pose proof (format_read_response_pres _ _ _ _ _ _ _ _ Ef) as [A2 _]. pget FPend A2.
         apply format_read_response_keep in Ef.
@@ -799,10 +856,10 @@ Proof.
         -- inversion H; subst s' o. eapply sr_keep_r; [exact S4|reflexivity].
         -- destruct (resume_at cfg (stage_of r) (upd_control s4 CIdle)) as [s5 o5] eqn:Er.
            inversion H; subst s' o. eapply sr_trans; [exact S4|]. apply qs_sr.
-           eapply sr_keep_l; [|eapply idle_run_qs; [|exact Er]]; [reflexivity|exact P4].
+           eapply sr_keep_l; [|eapply resume_at_qs; [|exact Er]]; [reflexivity|exact P4].
     + destruct (resume_at cfg (stage_of r) (upd_pending (upd_control s0 CIdle) (Some (from, bc, bytes, d, fid))))
         as [s2 o2] eqn:Er.
-      inversion H; subst s' o. apply idle_run_sr in Er; [|exact Es].
+      inversion H; subst s' o. apply resume_at_sr in Er; [|exact Es].
       unfold isr, pend_W, Wr_of, Wb_of in Er. prj.
       eapply sr_keep_l; [|eapply sr_weaken; [| |exact Er]]; [reflexivity|auto|].
       intros Hx. left. exact Hx.
@@ -820,7 +877,7 @@ Proof.
       apply end_unsol_keep in Ee.
       destruct (resume_at cfg (St3 ns) s2) as [s3 o3] eqn:Er.
       inversion H; subst s' o. eapply sr_trans; [exact S1|]. apply qs_sr.
-      eapply sr_keep_l; [exact Ee|]. eapply idle_run_qs; [|exact Er]. congruence.
+      eapply sr_keep_l; [exact Ee|]. eapply resume_at_qs; [|exact Er]. congruence.
     + inversion H; subst. exact S1.
 Qed.
 
@@ -832,10 +889,16 @@ Definition ev_Wr (cfg : ocfg) (ev : oevent) : Prop :=
 Definition ev_Wb (cfg : ocfg) (s : ostate) (ev : oevent) : Prop :=
   match ev with ERx from bc _ d => bcast_cause cfg s from bc d | _ => False end.
 
-Time Lemma ostep_sr cfg s ev ans s' o :
-  J s -> ostep cfg s ev ans = (s', o) -> sr (ev_Wr cfg ev) (ev_Wb cfg s ev) s s'.
+Lemma ostep_appiin cfg s v ans s' o :
+  ostep cfg s (EAppIin v) ans = (s', o) ->
+  s_restart_iin s' = s_restart_iin s /\ s_last_bcast s' = s_last_bcast s /\ s_bcast_rep s' = s_bcast_rep s /\
+  s_app_iin s' = v.
+Proof. unfold ostep. intros H; inversion H; subst. prj. auto. Qed.
+
+Lemma ostep_sr cfg s ev ans s' o :
+  J s -> ostep cfg s ev ans = (s', o) -> (forall v, ev <> EAppIin v) -> sr (ev_Wr cfg ev) (ev_Wb cfg s ev) s s'.
 Proof.
-  intros HJ H. unfold ostep in H.
+  intros HJ H Hev. unfold ostep in H.
   set (s0 := upd_answers s ans) in *.
   assert (J0 : J s0) by exact HJ.
   assert (K0 : keep s s0) by reflexivity.
@@ -855,7 +918,7 @@ Proof.
       - destruct Jd as [Jd|Jd]; [|destruct Jd].
         destruct (idle_loop 8 cfg s0) as [s1 o1] eqn:Ei. exists s1, o1.
         pose proof (idle_loop_spec _ _ _ _ (conj Ec Jd) Jp Ei) as [_ J1].
-        split; [eapply idle_run_qs; [exact Jp|exact Ei]|]. split; [exact J1|reflexivity].
+        split; [eapply idle_loop_qs; [exact Jp|exact Ei]|]. split; [exact J1|reflexivity].
       - exists (upd_notify s0 true), []. split; [apply keep_sr; reflexivity|]. split; [|reflexivity].
         split; [exact Jp|]. destruct Jd as [Jd|Jd]; [left; exact Jd|destruct Jd].
       - exists (upd_notify s0 true), []. split; [apply keep_sr; reflexivity|]. split; [|reflexivity].
@@ -865,14 +928,15 @@ Proof.
     apply advance_qs in Ea; [|exact J1]. inversion H; subst s' o.
     eapply sr_keep_l; [exact K0|]. eapply sr_trans; [exact Q1|exact Ea].
   - inversion H; subst s' o. apply keep_sr. reflexivity.
-  - inversion H; subst s' o. apply keep_sr. reflexivity.
+  - exfalso. exact (Hev v eq_refl).
   - set (s1 := upd_pending (upd_control (session_reset s0) CIdle) None) in *.
-    assert (K1 : s_restart_iin s1 = s_restart_iin s /\ s_last_bcast s1 = s_last_bcast s) by (split; reflexivity).
+    assert (K1 : s_restart_iin s1 = s_restart_iin s /\ s_last_bcast s1 = s_last_bcast s /\ s_app_iin s1 = s_app_iin s)
+      by (repeat split; reflexivity).
     destruct (idle_loop 8 cfg s1) as [s2 o2] eqn:Ei.
     pose proof (idle_loop_spec cfg s1 s2 o2 (conj eq_refl eq_refl) eq_refl Ei) as [_ J2].
-    apply idle_run_qs in Ei; [|reflexivity].
+    apply idle_loop_qs in Ei; [|reflexivity].
     destruct (advance 64 cfg s2 (s_now s2 + settle_ms)) as [s3 o3] eqn:Ea.
     apply advance_qs in Ea; [|exact J2]. inversion H; subst s' o.
     eapply sr_trans; [|eapply sr_trans; [exact Ei|exact Ea]].
-    destruct K1 as [K1 K2]. split; [left; exact K1|]. intros Hm. left. congruence.
+    destruct K1 as (K1 & K2 & K3). split; [left; exact K1|]. split; [|exact K3]. left. exact K2.
 Qed.
